@@ -179,6 +179,8 @@ func main() {
 			runRedirect(code, false)
 		}
 		runRedirect(base.StatusFound, true)
+		runFallback(false)
+		runFallback(true)
 	}
 
 	// execution order: the mixed-profile scenarios (defined last, so that the names and seeds of
